@@ -788,6 +788,17 @@ class Tracks:
                 feature, _ = self.annotators.all_features[key]
                 self.features[key] = feature
 
+        # The FeatureDict's tracklet/lineage keys follow the annotator that manages
+        # them (they are None if the FeatureDict was built without these features)
+        from funtracks.annotators import TrackAnnotator
+
+        for annotator in self.annotators:
+            if isinstance(annotator, TrackAnnotator):
+                if annotator.tracklet_key in feature_keys:
+                    self.features.tracklet_key = annotator.tracklet_key
+                if annotator.lineage_key in feature_keys:
+                    self.features.lineage_key = annotator.lineage_key
+
         # Compute the features if requested
         if recompute:
             self.annotators.compute(feature_keys)
